@@ -731,8 +731,8 @@ var xChains = map[string][][]string{
 var xKinds = []string{"rtcp-read", "rtp-read", "rtp-write", "rtcp-write", "rtcp-write-stats", "attr-write"}
 
 // kinds replayed under the race detector (thorough tier): not rtcp-write, whose race between the
-// logger goroutine and the caller mutating its packet objects is the known finding, and not
-// attr-write (known finding; ungated concurrent map access is a fatal runtime error)
+// logger goroutine and the caller mutating its packet objects is outside the property text, and
+// not attr-write (outside the property text; ungated concurrent map access is a fatal runtime error)
 var xRaceKinds = []string{"sized", "rtcp-read", "rtp-read", "rtp-write", "rtcp-write-stats"}
 
 var xSized = []string{"LeakyBucket", "NackCopy", "Pacing"}
